@@ -4,7 +4,7 @@ import json, os, shutil, subprocess, sys, tempfile, time
 from concurrent.futures import ThreadPoolExecutor
 man = json.load(open('/verif/MANIFEST.json'))
 pids = [c['property_id'] for c in man['checks']] + [p for p in sys.argv[1:] if p.startswith('C')]
-diffs = sorted(f for f in os.listdir('/verif/harmless') if f.endswith('.diff'))
+diffs = sorted(f for f in os.listdir('/verif/harmless') if f.endswith('.diff') and not f.endswith('.orig.diff'))
 def run(d):
     tmp = tempfile.mkdtemp(prefix='harmless-')
     out = []
